@@ -166,8 +166,73 @@ func extractLogLine(p *pkgs, f *facts) {
 		f.miss = append(f.miss, "Client.Start:stdout-scanner")
 	}
 
+	// ---- logStderr: every `return` sits in the switch that directly follows `… := reader.ReadLine()`; no goto / labelled break
+	endsOnRead := false
+	if ls := p.fn("Client", "logStderr"); ls != nil {
+		var sw *ast.SwitchStmt
+		ast.Inspect(ls.Body, func(n ast.Node) bool {
+			fs, ok := n.(*ast.ForStmt)
+			if !ok || sw != nil {
+				return true
+			}
+			for i, st := range fs.Body.List {
+				if as, ok := st.(*ast.AssignStmt); ok && len(as.Rhs) == 1 && strings.HasSuffix(exprString(as.Rhs[0]), ".ReadLine()") && i+1 < len(fs.Body.List) {
+					if x, ok := fs.Body.List[i+1].(*ast.SwitchStmt); ok {
+						sw = x
+					}
+				}
+			}
+			return true
+		})
+		if sw != nil {
+			endsOnRead = true
+			ast.Inspect(ls.Body, func(n ast.Node) bool {
+				switch x := n.(type) {
+				case *ast.FuncLit:
+					return false
+				case *ast.ReturnStmt:
+					if x.Pos() < sw.Pos() || x.End() > sw.End() {
+						endsOnRead = false
+					}
+				case *ast.BranchStmt:
+					if x.Tok.String() == "goto" || (x.Tok.String() == "break" && x.Label != nil) {
+						endsOnRead = false
+					}
+					if x.Tok.String() == "break" && x.Label == nil && !(x.Pos() > sw.Pos() && x.End() < sw.End()) {
+						// an unlabelled break outside the read-error switch: only harmless inside another switch/select
+						endsOnRead = endsOnRead && insideInnerSwitch(ls.Body, x)
+					}
+				case *ast.CallExpr:
+					if id, ok := x.Fun.(*ast.Ident); ok && id.Name == "panic" {
+						endsOnRead = false
+					}
+				}
+				return true
+			})
+		}
+	} else {
+		f.miss = append(f.miss, "Client.logStderr")
+	}
+	f.lean = append(f.lean, fmt.Sprintf("def stderrReader : LogLine.ReaderParams := ⟨%s⟩", leanBool(endsOnRead)))
+	f.set("stderrReader", map[string]interface{}{"endsOnlyOnReadError": endsOnRead})
 	f.lean = append(f.lean, fmt.Sprintf("def logline : LogLine.Params := ⟨%s, %d⟩", leanBool(checked), defBuf))
 	f.lean = append(f.lean, fmt.Sprintf("def drain : Scanner.DrainParams := ⟨%d, %s, %s⟩", maxToken, leanBool(drainsLines), leanBool(drainsAfterErr)))
 	f.set("logline", map[string]interface{}{"checkedAssertions": checked, "defaultBuf": defBuf})
 	f.set("drain", map[string]interface{}{"maxToken": maxToken, "drainsLines": drainsLines, "drainsAfterScannerError": drainsAfterErr})
+}
+
+// insideInnerSwitch: is node b nested in a switch/select/for that is itself inside root (so that an unlabelled
+// `break` leaves only that inner statement)?
+func insideInnerSwitch(root ast.Node, b ast.Node) bool {
+	found := false
+	ast.Inspect(root, func(n ast.Node) bool {
+		switch n.(type) {
+		case *ast.SwitchStmt, *ast.TypeSwitchStmt, *ast.SelectStmt:
+			if n.Pos() < b.Pos() && b.End() <= n.End() {
+				found = true
+			}
+		}
+		return true
+	})
+	return found
 }
